@@ -1,4 +1,5 @@
 """C19 truncated input is reported as premature end of input."""
+from hv import core  # noqa: E402
 import contextlib
 import gc
 import io
@@ -117,7 +118,7 @@ def run(chk):
     if chk.jobs > 1:
         gc.collect(); gc.freeze()
         with mp.get_context("fork").Pool(min(chk.jobs, 16)) as pool:
-            results = pool.map(_work, tasks)
+            results = core.pmap(pool, _work, tasks)
     else:
         results = [_work(t) for t in tasks]
     total = {}
